@@ -131,6 +131,14 @@ CHECKS = {
         "read back and compared (content, timestamp, location, validity, provider, identifiers never reused, refused requests without effect).",
         "Sampled histories (quick <= 120 operations, thorough <= 300); one-second validity band; no persistence verdict outside the area of maintenance; three recorded known findings (area collection, unregistered update/delete).",
     ),
+    "C13": (
+        "differential testing of the two LDM back-ends plus a brute-force predicate evaluator over hypothesis-generated stores, filters, type selections and orders",
+        "Randomly populated stores (objects with and without optional containers, several types) are loaded into a dictionary-backed and a "
+        "TinyDB-backed LDM through IF.LDM.3; generated requests (all 8 operators, one or two statements with and/or, matching / non-matching / "
+        "boundary reference values, missing attributes, type selections, order tuples) are answered through IF.LDM.4 and compared as multisets "
+        "with a brute-force evaluator, checked for the requested order, and compared between the back-ends.",
+        "Sampled stores (<= 25 objects) with small value domains; JSON-serialisable messages only; order judged only when all keys are present.",
+    ),
 }
 
 NOT_APPLICABLE = {
